@@ -70,7 +70,7 @@ fn st_x(prop: impl Property + 'static, quick: u64, thorough_scale: u64, profile:
 pub fn fuzzable(s: &Stage) -> bool {
     s.profile == Profile::Release
         && ![
-            "wide", "huge", "wide-root", "expensive-soft", "long", "bulk", "bulk-fat", "deep-chain", "exhaustive", "all-indices", "asan",
+            "wide", "huge", "far-ids", "wide-root", "expensive-soft", "long", "bulk", "bulk-fat", "deep-chain", "exhaustive", "all-indices", "asan",
         ]
         .contains(&s.prop.stage())
 }
@@ -90,6 +90,7 @@ pub fn stages(id: &str) -> Vec<Stage> {
             st(C01 { params: Params::default().with_soft(3, 150), stage: "release-rich", async_weight: 3 }, 10_000, 500_000, Release),
             st(C01 { params: Params::conflict_heavy().with_soft(3, 150), stage: "debug", async_weight: 3 }, 6_000, 300_000, Debug),
             st(C01 { params: Params::huge_package(5000).with_soft(2, 100), stage: "huge", async_weight: 3 }, 150, 3_000, Release),
+            st(C01 { params: Params::default().with_soft(3, 150).with_far_ids(600), stage: "far-ids", async_weight: 3 }, 300, 6_000, Release),
         ],
         "C02" => vec![
             st(C02 { params: Params::conflict_heavy().env_override(), stage: "main", variants: 4 }, 15_000, 600_000, Release),
@@ -98,13 +99,17 @@ pub fn stages(id: &str) -> Vec<Stage> {
             st_x(C04Deep { id: "C02", stage: "deep-chain", max_depth: 16_384, max_soft: 70_000 }, 2, 8, Isolated),
         ],
         "C03" => vec![
-            st(C03 { params: Params::conflict_heavy(), stage: "main" }, 20_000, 800_000, Release),
+            st(C03 { params: Params::conflict_heavy().with_big_unions(100), stage: "main" }, 20_000, 800_000, Release),
             st(C03 { params: Params::deep_conflict().env_override(), stage: "deep" }, 20_000, 800_000, Release),
         ],
         "C04" => vec![
-            st(C04 { params: Params::default().hint_heavy().with_soft(4, 250), stage: "release" }, 20_000, 800_000, Release),
-            st(C04 { params: Params::default().hint_heavy().with_soft(4, 250), stage: "debug" }, 20_000, 800_000, Debug),
-            st(C04 { params: Params::cyclic(), stage: "cycles" }, 20_000, 800_000, Release),
+            st(C04 { params: Params::default().hint_heavy().with_soft(4, 250), stage: "release", reentrant: false }, 20_000, 800_000, Release),
+            st(C04 { params: Params::default().hint_heavy().with_soft(4, 250), stage: "debug", reentrant: false }, 20_000, 800_000, Debug),
+            st(C04 { params: Params::cyclic(), stage: "cycles", reentrant: false }, 20_000, 800_000, Release),
+            st(C04 { params: Params::default().hint_heavy().with_soft(2, 150), stage: "reentrant-sort", reentrant: true }, 6_000, 240_000, Release),
+            st(C04 { params: Params::default().hint_heavy().with_soft(2, 150), stage: "reentrant-sort-debug", reentrant: true }, 3_000, 120_000, Debug),
+            st(C04 { params: Params::default().hint_heavy().with_soft(4, 250).with_far_ids(600), stage: "far-ids", reentrant: false }, 300, 6_000, Release),
+            st(C04 { params: Params::huge_package(3000).with_soft(2, 100), stage: "huge", reentrant: false }, 100, 2_000, Release),
             st_x(C04Deep { id: "C04", stage: "deep-chain", max_depth: 16_384, max_soft: 70_000 }, 3, 8, Isolated),
             st_x(C04Deep { id: "C04", stage: "deep-chain-debug", max_depth: 6_000, max_soft: 70_000 }, 2, 8, IsolatedDebug),
         ],
@@ -114,10 +119,10 @@ pub fn stages(id: &str) -> Vec<Stage> {
         ],
         "C06" => vec![
             st(C06 { params: Params::conflict_heavy(), stage: "main", repeats: 4 }, 6_000, 200_000, Release),
-            st(C06 { params: Params::default().with_soft(2, 150), stage: "rich", repeats: 4 }, 4_000, 150_000, Release),
+            st(C06 { params: Params::default().with_soft(2, 150).with_big_unions(60), stage: "rich", repeats: 4 }, 4_000, 150_000, Release),
         ],
         "C07" => vec![
-            st(C07 { params: Params::default(), stage: "main" }, 20_000, 800_000, Release),
+            st(C07 { params: Params::default().with_big_unions(40), stage: "main" }, 20_000, 800_000, Release),
             st(C07 { params: Params { max_pkgs: 20, min_pkgs: 8, ..Params::default() }, stage: "large" }, 5_000, 200_000, Release),
             st(C07 { params: Params { min_pkgs: 100, max_pkgs: 160, max_cands: 4, max_reqs: 2, max_constrains: 1, min_root_reqs: 20, max_root_reqs: 60, ..Params::default() }, stage: "wide" }, 300, 6_000, Release),
             st(C07 { params: Params::huge_package(6000), stage: "huge" }, 150, 3_000, Release),
@@ -131,7 +136,7 @@ pub fn stages(id: &str) -> Vec<Stage> {
             st(C09 { params: Params::default(), stage: "conflict-free", conflict_free: true }, 15_000, 600_000, Release),
         ],
         "C10" => vec![
-            st(C10 { params: Params::conflict_heavy().with_soft(2, 100), stage: "sampled", exhaustive: false, max_schedules: 0, reentrant_sort: false }, 4_000, 150_000, Release),
+            st(C10 { params: Params::conflict_heavy().with_soft(2, 100).with_big_unions(150), stage: "sampled", exhaustive: false, max_schedules: 0, reentrant_sort: false }, 4_000, 150_000, Release),
             st(C10 { params: Params::default().with_soft(2, 100), stage: "reentrant-sort", exhaustive: false, max_schedules: 0, reentrant_sort: true }, 3_000, 100_000, Release),
             st(C10 { params: Params { min_pkgs: 2, max_pkgs: 4, max_cands: 3, max_reqs: 2, min_root_reqs: 1, max_root_reqs: 2, ..Params::conflict_heavy() }, stage: "exhaustive", exhaustive: true, max_schedules: 3000, reentrant_sort: false }, 90, 3_000, Release),
         ],
@@ -140,7 +145,7 @@ pub fn stages(id: &str) -> Vec<Stage> {
             st(C11 { params: Params::wide(), stage: "wide" }, 400, 8_000, Release),
         ],
         "C12" => vec![
-            st(C12 { params: Params::conflict_heavy().with_soft(2, 100), stage: "main", max_indices: 48, conflict_free: false }, 1_500, 0, Release),
+            st(C12 { params: Params::conflict_heavy().with_soft(2, 100).with_big_unions(150), stage: "main", max_indices: 48, conflict_free: false }, 1_500, 0, Release),
             st(C12 { params: Params::conflict_heavy().with_soft(2, 100), stage: "all-indices", max_indices: 0, conflict_free: false }, 0, 40_000, Release),
             st(C12 { params: Params::wide_root(), stage: "wide-root", max_indices: 64, conflict_free: true }, 3, 60, Release),
         ],
@@ -165,7 +170,8 @@ pub fn stages(id: &str) -> Vec<Stage> {
             st(C16 { params: Params::conflict_heavy(), stage: "deep" }, 3_000, 100_000, Release),
         ],
         "C20" => vec![
-            st(C20 { params: Params::default().hint_heavy(), stage: "main", max_ops: 40 }, 10_000, 400_000, Release),
+            st(C20 { params: Params::default().hint_heavy().with_big_unions(60), stage: "main", max_ops: 40 }, 10_000, 400_000, Release),
+            st(C20 { params: Params::default().hint_heavy().with_far_ids(700), stage: "far-ids", max_ops: 40 }, 300, 6_000, Release),
         ],
         "C17" => vec![
             st(C17 { id: "C17", stage: "solve", kind: "solve", max_tape: 900 }, 400, 8_000, Release),
